@@ -259,6 +259,43 @@ def plan(src, napps=2):
     src.reach('planned')
 
 
+@rigged
+def sequence_owned_elsewhere(src):
+    """H03d: restart_sequence asked to an instance whose own Starter is idle while another instance drives a start
+    sequence (its starting_jobs are published): refused, nothing requested - otherwise the local Starter would re-plan
+    the application and request a process before the lower start_sequence, still STARTING for the other instance, has
+    finished"""
+    from supervisor.xmlrpc import RPCError
+    core = FC.operational(2)
+    ids = core.ids
+    for i in ids:
+        core.add_process(i, 'app', 'first', PS.STOPPED)
+        core.add_process(i, 'app', 'second', PS.STOPPED)
+    app = core.context.applications['app']
+    adapter.set_rules(app.rules, managed=True, start_sequence=1)
+    adapter.set_rules(app.processes['first'].rules, start_sequence=1, required=True)
+    adapter.set_rules(app.processes['second'].rules, start_sequence=2, required=True)
+    core.finalize_rules()
+    busy = src.pick('jobs_in_progress', ['starting-on-the-peer', 'stopping-on-the-peer', 'nowhere'])
+    if busy != 'nowhere':
+        adapter.plant_peer_state_modes(core, ids[1], **{busy.split('-')[0] + '_jobs': True})
+        core.process_event(ids[1], 'app', 'first', PS.STARTING)
+    core.rpc_handler.out.clear()
+    fault = None
+    try:
+        core.rpc_intf.restart_sequence(False)
+    except RPCError as exc:
+        fault = exc.code
+    requests = [(n, a[:2]) for n, a in core.rpc_handler.out if n in ('send_start_process', 'send_stop_process')]
+    if busy == 'nowhere':
+        src.reach('served')
+        src.check('served-when-nothing-is-in-progress', fault is None, sig=busy, fault=fault)
+    else:
+        src.reach('refused')
+        src.check('refused-while-a-sequence-is-in-progress-elsewhere', fault == 101 and not requests, sig=busy,
+                  fault=fault, requests=requests)
+
+
 INITIAL = {'stopped': PS.STOPPED, 'running': PS.RUNNING, 'fatal': PS.FATAL, 'crashed': PS.EXITED}
 
 
@@ -335,6 +372,8 @@ def selection(src, napps=2, nprocs=2, rounds=5):
 
 
 HARNESSES = [
+    Harness('H03d', sequence_owned_elsewhere, quick={}, thorough={}, reach=('served', 'refused'), timeout=(30, 30),
+            doc='restart_sequence refused while another instance has start / stop jobs in progress'),
     Harness('H03c', selection, quick={'napps': 2}, thorough={'napps': 2, 'nprocs': 3},
             reach=('ran', 'something-started', 'minor-failure', 'major-failure'), timeout=(100, 900),
             doc='automatic sequence over applications already running / in minor / in major failure: sequence 0 is '
